@@ -4,6 +4,7 @@ V: IR vs Panel.calc_kA(finalize=False) / fcA.  H: Model/Piston.lean (coefficient
 beta/gamma/aeromu that Panel.calc_kA hands to the kernels (recorded by wrapping the kernel module functions).
 Implementation arm: full bilinear-form oracle beta*int(w_A dw_B/dflow) - gamma*int(w_A w_B) and -aeromu*int(w_A w_B)*1j
 against calc_kA()/calc_cA() for panels whose w is restrained on the flow edges; stiffened-bay delegation.
+H (bay): Model/BayAero.lean vs StiffPanelBay.calc_kA and the aerodynamic part of tstiff2d_1stiff_flutter (tools/props/C19_bay.py).
 """
 import numpy as np
 
@@ -15,8 +16,13 @@ from tools.translate import pyx
 TRUSTED = pc.TRUSTED_T + [
     'hand model lean/CompmechVerif/Model/Piston.lean of the coefficient derivation (q = (Mach^2-1)**0.5 is a parameter fed '
     'with the float the code computes)',
-    'make_skew_symmetric / finalize glue of calc_kA, calc_cA and StiffPanelBay.calc_kA are covered by the oracle comparison '
-    'on explored panels only',
+    'make_skew_symmetric / finalize glue of calc_kA, calc_cA are covered by the oracle comparison on explored panels only (their hand model '
+    'Model/PanelGlue.lean is tied by the C02 glue correspondence)',
+    'hand model lean/CompmechVerif/Model/BayAero.lean of StiffPanelBay.calc_kA (which exceptions the bay raises itself, the Mach == 1 patch on '
+    'the bay, the ten attributes copied onto panels[0] in order, the delegation Panel.calc_kA(size=bay size, row0=0, col0=0, finalize=True)) and '
+    'of the aerodynamic part of tstiff2d_1stiff_flutter: tied to the running code by the recorded-call correspondence tools/props/C19_bay.py '
+    '(model run at Q on the exact float inputs through drivers/C19.lean) on the explored bays only; the stiffeners\' _rebuild outcome and the '
+    'get_size() of the stiffener parts are parameters of that model, measured on a deep copy of the bay; the compiled kernels are parameters',
 ]
 ASSUMPTIONS = ['conical panels are rejected by calc_kA (NotImplementedError) and are outside C19',
                'flow along y carries no curvature term in any kernel (stated in the theorems)']
@@ -308,6 +314,55 @@ def flutter_assembly(ctx, rng, flow):
     return None, None
 
 
+def entry_point_witnesses(ctx):
+    """fixed witnesses of the two listed findings about entry points that raise before any matrix is delivered (a legitimate
+    definition, an exception of the package = a failing input of the property).  Each is listed only in its exact form; a different
+    exception, or a returned result that is wrong, is a new violation."""
+    from compmech.panel import Panel
+    from compmech.stiffpanelbay import StiffPanelBay
+    lp = (142.5e9, 8.7e9, 0.28, 5.1e9, 5.1e9, 5.1e9)
+
+    def mkbay():
+        bay = StiffPanelBay()
+        bay.a, bay.b, bay.m, bay.n, bay.stack, bay.plyt, bay.mu = 2., 1., 4, 4, [0, 90, 90, 0], 1.25e-4, 1500.
+        bay.laminaprop, bay.model, bay.beta, bay.aeromu = lp, 'plate_clt_donnell_bardell', 5., 0.1
+        bay.add_panel(0, 1.)
+        return bay
+    # (1) the aerodynamic matrix of a bay that was never asked for its size
+    bay = mkbay()
+    try:
+        kA = pc.quiet(bay.calc_kA, silent=True)
+        ref = mkbay()
+        pc.quiet(ref.calc_k0, silent=True)
+        d = pc.rel_diff(kA.toarray(), pc.quiet(ref.calc_kA, silent=True).toarray())
+        if d > 1e-12:
+            ctx.violation('C19 fails on the implementation: StiffPanelBay.calc_kA as first call on a bay differs from the call after calc_k0: rel %.3e' % d,
+                          dict(case='fresh bay', derived='entry points'))
+            return True
+    except Exception as e:
+        exact = isinstance(e, AttributeError) and "no attribute 'size'" in str(e)
+        if ctx.violation('C19 fails on the implementation: StiffPanelBay.calc_kA as FIRST call on a freshly defined bay raises %s: %s'
+                         % (type(e).__name__, e), dict(case='fresh bay (a=2, b=1, m=n=4, beta=5), calc_kA() first', derived='entry points'),
+                         identity='C19-bay-kA-needs-size-attribute' if exact else None):
+            return True
+    # (2) the damping matrix through the analysis entry points
+    p = Panel(a=1., b=.5, m=4, n=4, stack=[0, 90, 0], plyt=1e-3, laminaprop=lp, mu=1500., beta=5., aeromu=0.1)
+    p.model = 'plate_clt_donnell_bardell'
+    bay = mkbay()
+    pc.quiet(bay.calc_k0, silent=True)
+    for name, call in (('Panel.freq(atype=2, damping=True, sparse_solver=False)',
+                        lambda: pc.quiet(p.freq, atype=2, damping=True, sparse_solver=False, silent=True)),
+                       ('StiffPanelBay.calc_cA()', lambda: pc.quiet(bay.calc_cA, silent=True))):
+        try:
+            call()
+        except Exception as e:
+            exact = isinstance(e, TypeError) and 'calc_cA()' in str(e) and ('aeromu' in str(e) or "'size'" in str(e))
+            if ctx.violation('C19 fails on the implementation: %s raises %s: %s' % (name, type(e).__name__, e),
+                             dict(case=name, derived='entry points'), identity='C19-calc_cA-callers-not-updated' if exact else None):
+                return True
+    return False
+
+
 def correspondence(ctx):
     ir = pc.translated(ctx)
     rng = ctx.rng
@@ -348,6 +403,14 @@ def correspondence(ctx):
             ctx.violation('model/implementation disagreement on the piston-theory coefficients: model (%r, %r) vs code %r'
                           % (float(mb), float(gm), coef), dict(case=case, tie='H Model/Piston.lean'), found_input=False)
             return
+    # H: StiffPanelBay.calc_kA and the aerodynamic part of tstiff2d_1stiff_flutter against Model/BayAero.lean (recorded kernel calls)
+    from tools.props import C19_bay
+    if entry_point_witnesses(ctx):
+        return
+    if C19_bay.bay_glue_correspondence(ctx, rng):
+        return
+    if C19_bay.flutter_glue_correspondence(ctx, rng):
+        return
     for t in range(ctx.scale(8, 40)):
         c, bad, ident = bay_delegation(ctx, rng)
         ctx.evaluations += 1
@@ -439,6 +502,16 @@ def search(ctx, reason):
 
 def replay(ctx, data):
     r = data['replay']
+    if r.get('bay_glue'):
+        # exactly this bay: the recorded-call correspondence with Model/BayAero.lean, then the property-level predicate
+        from tools.props import C19_bay
+        g = r['bay_glue']
+        bad = C19_bay.bay_glue_correspondence(ctx, ctx.rng, cases=[g])
+        p_bad = C19_bay.bay_property_bad(g)
+        print('bay glue model vs implementation:', 'disagree' if bad else 'agree', '| property on implementation:', p_bad)
+        for v in ctx.violations:
+            print('   ', v['what'])
+        return 1 if (bad or p_bad) else 0
     if r.get('case') and not r.get('derived'):
         v_bad, p_bad, line, coef = run_case(ctx, r['case'], pc.translated(ctx), [])
         print('V:', v_bad, '| property on implementation:', p_bad)
